@@ -317,7 +317,7 @@ fn run_geometry(geo: &Geo, relation: u8, aux: &[f32; 4], res: &mut CaseResult, t
 			let mirrored = l + q * Vec3::new(-local.x, local.y, local.z);
 			if let Ok(m) = render_geo(&Geo { emitter: mirrored.into(), ..*geo }, (0.5, 0.5)) {
 				let (ml, mr) = (m.0 / 0.5, m.1 / 0.5);
-				if (ml - gr).abs() > 2e-3 || (mr - gl).abs() > 2e-3 {
+				if !((ml - gr).abs() <= 2e-3) || !((mr - gl).abs() <= 2e-3) {
 					res.fail(Violation::new("geometry", "mirror-does-not-swap-ears", format!("{geo:?}: gains ({gl}, {gr}); mirrored emitter gives ({ml}, {mr})")));
 				}
 				res.hit("geometry.mirror");
@@ -344,7 +344,7 @@ fn run_geometry(geo: &Geo, relation: u8, aux: &[f32; 4], res: &mut CaseResult, t
 				// any rounding of the moved scene picks an arbitrary one)
 				let local = q.inverse() * (Vec3::from(geo.emitter) - l);
 				let on_an_ear = (local - Vec3::X * 0.1).length() < 1e-2 || (local + Vec3::X * 0.1).length() < 1e-2;
-				if margin > 1e-3 && !on_an_ear && ((ml - gl).abs() > 3e-3 || (mr - gr).abs() > 3e-3) {
+				if margin > 1e-3 && !on_an_ear && (!((ml - gl).abs() <= 3e-3) || !((mr - gr).abs() <= 3e-3)) {
 					res.fail(Violation::new("geometry", "not-invariant-under-rigid-motion", format!("{geo:?}: gains ({gl}, {gr}); after a rigid motion ({ml}, {mr})")));
 				}
 				res.hit("geometry.rigid_motion");
@@ -619,7 +619,7 @@ fn run_history(ops: &[HOp], ibs: usize, nested: bool, map_in: (f64, f64), relink
 						trace.f64(param);
 						match (expect_dist, seen) {
 							(Some(want), Some(got)) => {
-								if (want - got).abs() > 1e-3 * (1.0 + want) {
+								if !((want - got).abs() <= 1e-3 * (1.0 + want)) {
 									res.fail(Violation::new(
 										"linked-distance",
 										"listener-distance-wrong",
@@ -630,7 +630,7 @@ fn run_history(ops: &[HOp], ibs: usize, nested: bool, map_in: (f64, f64), relink
 								let amount = ((got as f64 - map_in.0) / (map_in.1 - map_in.0)).clamp(0.0, 1.0);
 								if param == TWEENING {
 									// (not linked yet, or the link's own tween is still running)
-								} else if (param - amount).abs() > 1e-6 {
+								} else if !((param - amount).abs() <= 1e-6) {
 									res.fail(Violation::new(
 										"linked-distance",
 										"linked-parameter-does-not-follow-distance",
@@ -747,7 +747,7 @@ fn run_nested(a: [f32; 3], b: [f32; 3], e1: [f32; 3], e2: [f32; 3], drop_a: Opti
 				match (want, seen) {
 					(Some(w), Some(g)) if (w - g).abs() <= 1e-3 * (1.0 + w) => {
 						let amount = ((g as f64 - map_in.0) / (map_in.1 - map_in.0)).clamp(0.0, 1.0);
-						if (param - amount).abs() > 1e-6 {
+						if !((param - amount).abs() <= 1e-6) {
 							res.fail(Violation::new("linked-distance", "linked-parameter-does-not-follow-distance", format!("callback {cb}: {name}: distance {g} maps to {amount}, the parameter is {param}")));
 							return;
 						}
